@@ -29,6 +29,49 @@ class Lin:
         self.why = []  # explanations for N/A verdicts
         self.blamed = []  # normalised text of the blamed constructs
         self.loop_assume = {}
+        self.zero_skips = []  # (condition, trace_aware) of accepted `skip a zero term` selections
+
+    def _zero_skip(self, t):
+        """(condition term, trace_aware) when t is `base + X if <some part c of the cotangent is non-zero> else base`
+        with X linear in the cotangent; the non-zero test may be any(c) (possibly or-ed with isbox(c): trace-aware)"""
+        from ..kfun import same
+        from ..tutil import atom
+        from .common import resolve_callee
+
+        a, pol = atom(t.cond)
+        parts = list(a.vals) if (a.op == "bool" and a.opname == "or") else [a]
+        if not pol and len(parts) > 1:
+            return None
+        aware = False
+        n_any = 0
+        for p_ in parts:
+            pa, pp = atom(p_)
+            if pp is False and len(parts) > 1:
+                return None
+            if pa.op == "call" and pa.args:
+                rf, pre = resolve_callee(self.ev, pa) if hasattr(self, "ev") else (None, None)
+                q = pa.fn.ref.qual if pa.fn.op == "ref" else ""
+                if q.endswith(".isbox") and self.of(pa.args[0]) != "Z":
+                    aware = True
+                    continue
+                if (q.rsplit(".", 1)[-1] == "any" or (rf is not None and getattr(rf, "name", "") == "any")) and self.of(pa.args[0]) != "Z":
+                    n_any += 1
+                    continue
+            return None
+        if n_any == 0:
+            return None
+        with_term, without = (t.then, t.other) if pol else (t.other, t.then)
+        if with_term.op != "bin" or with_term.opname != "Add":
+            return None
+        if with_term.l is without or same(with_term.l, without):
+            x = with_term.r
+        elif with_term.r is without or same(with_term.r, without):
+            x = with_term.l
+        else:
+            return None
+        if self.of(x) not in ("L", "Z"):
+            return None
+        return (t.cond, aware)
 
     def blame(self, t, msg):
         if len(self.why) < 6:
@@ -146,6 +189,12 @@ class Lin:
         if o == "if":
             c = self.of(t.cond)
             if c != "Z":
+                zs = self._zero_skip(t)
+                if zs is not None:
+                    # `if any(c): acc = acc + X(c)` with X linear in c: skipping a term that is exactly zero
+                    # when c == 0 selects consistently with linearity
+                    self.zero_skips.append(zs)
+                    return join(self.of(t.then), self.of(t.other))
                 self.blame(t.cond, "control flow on the (co)tangent's value")
                 return "N"
             return join(self.of(t.then), self.of(t.other))
@@ -406,6 +455,17 @@ def closures_linear(ctx, world):
             isg = lambda t: t.op == "sym" and t.get("role") == "g"
         L = Lin(world, isg)
         v = L.of(ir.result)
+        # A5.cut: a selection on the VALUE of the cotangent is evaluated on the raw value even when the cotangent is
+        # traced (higher-order derivatives): the skipped term's dependence on the input is then cut out of the graph
+        # unless the test also holds for every boxed cotangent (isbox(c) or any(c))
+        for cond_, aware in L.zero_skips if getattr(ctx, "prop", None) == "C07" else []:
+            from ..model import norm_text as _nt
+
+            inst_ = construct_of(e) + "|" + (_nt(cond_.node) if cond_.node is not None else "?")
+            if aware:
+                ctx.ob("A5.cut", inst_, True, e.loc, sample="the zero-term shortcut is disabled for a traced (co)tangent")
+            else:
+                ctx.fail("A5.cut", inst_, inst_, e.loc, f"the rule skips a term when `{_nt(cond_.node) if cond_.node is not None else cond_}` is false; the test reads the raw value of the (co)tangent, so in a derivative of this derivative a traced (co)tangent whose value is zero at the evaluation point loses its dependence on the input", "reverse-over-reverse (Hessian) at a point where the cotangent reaching this rule is exactly zero but depends on the input, e.g. the Hessian of 0.5*(L(x) - t)**2 at a zero-residual point")
         if v in ("Z", "L"):
             ctx.ob("A5.lin", construct_of(e), True, e.loc, nontrivial=(v == "L"), sample=f"{v}")
         else:
